@@ -73,6 +73,11 @@ type G struct {
 	Announced []ObjKey // RWMutex write locks announced but not yet acquired
 }
 
+type obsNode struct {
+	s    string
+	prev *obsNode
+}
+
 type decision struct {
 	Kind string // "sched", "branch", "choice", ...
 	Desc string
@@ -100,6 +105,9 @@ type State struct {
 	nTrans     int
 	mainDone   bool
 	undecided  bool // a branch on this path was taken although the solver could not decide its feasibility
+
+	// vObserve trace of this path (translator validation)
+	obs *obsNode
 
 	// model satisfying pc (nil if unknown)
 	model *Model
@@ -131,6 +139,7 @@ func (st *State) Clone() *State {
 		nTrans:    st.nTrans,
 		mainDone:  st.mainDone,
 		undecided: st.undecided,
+		obs:       st.obs,
 		model:     st.model,
 	}
 	copy(n.heap, st.heap)
